@@ -419,7 +419,9 @@ func dirsText(dirs []sx.S) string {
 	for _, d := range dirs {
 		dl := sx.List(d)
 		nm := dl[1].(string)
-		if nm != "skip" && nm != "include" {
+		if nm == "0" {
+			nm = "deprecated"
+		} else if nm != "skip" && nm != "include" {
 			nm = "d" + nm
 		}
 		b.WriteString(" @" + nm)
@@ -861,7 +863,7 @@ func execExec(input sx.S) (obs sx.S) {
 		}
 		w.calls = nil
 		if perr != nil {
-			outs = append(outs, sx.L("parse-error", sx.Hex(perr.Error())))
+			outs = append(outs, sx.L("rejected"))
 			continue
 		}
 		result, err := root.ResolveExecutable(exe, opName, vars)
